@@ -69,12 +69,13 @@ Proof.
   assert (Hmono : forall t n extra, In (t, n) (opens (ctrace ls)) -> In (t, n) (opens (ctrace ls ++ extra))).
   { intros. rewrite opens_app. apply in_or_app. auto. }
   destruct x as [l'| |c]; simpl.
-  - destruct l'; simpl; try (split; intros; apply Hmono; eauto);
-      try (split; intros t0 n0 H; [apply Hmono; eauto|];
-           apply in_app_or in H; destruct H as [H|H]; [apply Hmono; eauto|];
-           rewrite opens_app; apply in_or_app; right; apply opens_emitted; exact H).
-    split; intros; rewrite app_nil_r; eauto.
-  - destruct (evq (sfinal ls)) as [|e r] eqn:E; simpl; rewrite app_nil_r; [split; assumption|].
+  - destruct l' as [c0| |t0|t0|t0|t0]; [simpl; rewrite app_nil_r; split; assumption|..];
+      (simpl; split;
+       [intros; apply Hmono; eauto
+       |intros t n H; apply in_app_or in H; destruct H as [H|H];
+        [apply Hmono; eauto|rewrite opens_app; apply in_or_app; right; apply opens_emitted; exact H]]).
+  - destruct (evq (sfinal ls)) as [|e r] eqn:E; simpl; rewrite app_nil_r;
+      [split; [assumption|intros t n H; rewrite ?E in H; try contradiction; eauto]|].
     split.
     + intros t n H. destruct e as [t0 n0|t0 n0]; simpl in H.
       * destruct H as [H|H]; [inversion H; subst; apply IH2; left; reflexivity|auto].
@@ -100,7 +101,7 @@ Qed.
 Lemma sent_issued_snoc tr l o :
   sent_issued tr -> (forall c, l = Send c -> In (c_trace c, c_prompt c) (opens tr)) -> sent_issued (tr ++ [(l, o)]).
 Proof.
-  intros H Hl pre c o' post E. destruct (split_snoc _ _ _ _ _ E) as [(-> & -> & Ex)|(post' & -> & ->)].
+  intros H Hl pre c o' post E. symmetry in E. destruct (split_snoc _ _ _ _ _ E) as [(-> & -> & Ex)|(post' & -> & ->)].
   - inversion Ex; subst. apply Hl. reflexivity.
   - eapply H. reflexivity.
 Qed.
@@ -116,4 +117,125 @@ Proof.
   - destruct (mem (c_trace c, c_prompt c) (mopen (sfinal ls))) eqn:E; [|rewrite app_nil_r; assumption].
     apply sent_issued_snoc; [assumption|]. intros c0 H. inversion H; subst c0.
     apply (proj1 (view_issued ls)). apply mem_true. assumption.
+Qed.
+
+Lemma nth_sends_split : forall tr i c, nth_error (sends tr) i = Some c ->
+  exists p1 o p2, tr = p1 ++ (Send c, o) :: p2.
+Proof.
+  induction tr as [|[l o] tr IH]; intros i c H; [destruct i; discriminate|].
+  assert (Hrec : forall i, nth_error (sends tr) i = Some c -> exists p1 o' p2, (l, o) :: tr = p1 ++ (Send c, o') :: p2).
+  { intros j Hj. destruct (IH _ _ Hj) as (p1 & o' & p2 & ->). exists ((l, o) :: p1), o', p2. reflexivity. }
+  destruct l; simpl in H; eauto.
+  destruct i; simpl in H; [inversion H; subst; exists [], o, tr; reflexivity|eauto].
+Qed.
+
+Lemma relay_out_inv s i : snd (step s Relay) = ORelayed i -> exists c r, s_in s = (i, c) :: r.
+Proof.
+  simpl. destruct (s_in s) as [|[j c] r]; [discriminate|].
+  destruct (s_map s (c_trace c)); simpl; intros H; inversion H; subst; eauto.
+Qed.
+
+(** child level: if only commands for issued prompts are sent, only such commands are queued *)
+Theorem sent_issued_no_future : forall ls, sent_issued (trace ls) -> no_future_queued (trace ls).
+Proof.
+  intros ls SI pre i post c E Hn.
+  destruct (trace_split _ _ _ _ _ _ E) as (l1 & l2 & Hls & Hpre & Ho & _).
+  symmetry in Ho. apply relay_out_inv in Ho. destruct Ho as (c' & r & Hin). fold (final l1) in Hin. fold (trace l1) in Hpre.
+  pose proof (Inv_reach l1) as I1.
+  assert (Hc' : nth_error (sends (trace l1)) i = Some c') by (apply (i_in_nth _ _ I1); rewrite Hin; left; reflexivity).
+  assert (c' = c).
+  { rewrite E, sends_app, Hpre in Hn. rewrite (nth_error_app_some _ _ _ _ Hc') in Hn. congruence. }
+  subst c'. destruct (nth_sends_split _ _ _ Hc') as (p1 & o & p2 & Hsplit).
+  assert (Hop : In (c_trace c, c_prompt c) (opens p1)).
+  { eapply SI. rewrite E, Hpre, Hsplit, <- app_assoc. reflexivity. }
+  assert (Hop1 : In (c_trace c, c_prompt c) (opens (trace l1))) by (rewrite Hsplit, opens_app; apply in_or_app; auto).
+  pose proof (i_opens_lt _ _ I1 _ _ Hop1) as Hlt. rewrite (proj1 (ctr_opens l1)) in Hlt. rewrite Hpre. exact Hlt.
+Qed.
+
+Theorem system_no_future_queued : forall ls, no_future_queued (ctrace ls).
+Proof. intros ls. apply sent_issued_no_future. apply system_sent_issued. Qed.
+
+(** ---- the main process' view *)
+
+Lemma seen_open_final : forall ls, mopen (sfinal ls) = seen_open (strace ls).
+Proof.
+  induction ls using rev_ind; [reflexivity|].
+  rewrite sfinal_snoc, strace_snoc. unfold seen_open. rewrite fold_left_app. fold (seen_open (strace ls)). rewrite <- IHls.
+  destruct x as [l'| |c]; simpl.
+  - destruct l'; reflexivity.
+  - destruct (evq (sfinal ls)); reflexivity.
+  - destruct (mem (c_trace c, c_prompt c) (mopen (sfinal ls))); reflexivity.
+Qed.
+
+Lemma strace_split : forall ls s pre l o post,
+  strace_from s ls = pre ++ (l, o) :: post ->
+  exists l1 l2, ls = l1 ++ l :: l2 /\ pre = strace_from s l1 /\ o = snd (sstep (sexec_from s l1) l).
+Proof.
+  induction ls as [|a ls IH]; intros s pre l o post H.
+  - destruct pre; discriminate.
+  - destruct pre as [|e pre]; simpl in H.
+    + inversion H; subst. exists [], ls. repeat split.
+    + inversion H; subst. destruct (IH _ _ _ _ _ H2) as (l1 & l2 & -> & -> & ->).
+      exists (a :: l1), l2. repeat split.
+Qed.
+
+(** what happens to an API call *)
+Lemma api_cases : forall ls pre c o post,
+  strace ls = pre ++ (SApi c, o) :: post ->
+  exists l1 l2, ls = l1 ++ SApi c :: l2 /\ pre = strace l1 /\
+    ((o = SDropped /\ mem (c_trace c, c_prompt c) (seen_open pre) = false /\ sproj ls = sproj l1 ++ sproj_from (sfinal l1) l2) \/
+     (exists i, o = SForwarded i /\ mem (c_trace c, c_prompt c) (seen_open pre) = true /\
+                exists rest, ctrace ls = ctrace l1 ++ (Send c, OSent i) :: rest)).
+Proof.
+  intros ls pre c o post H. destruct (strace_split _ _ _ _ _ _ H) as (l1 & l2 & Hls & Hpre & Ho).
+  exists l1, l2. split; [assumption|]. split; [assumption|].
+  fold (sfinal l1) in Ho. fold (strace l1) in Hpre. rewrite Hpre, <- seen_open_final.
+  simpl in Ho. destruct (mem (c_trace c, c_prompt c) (mopen (sfinal l1))) eqn:Em.
+  - right. exists (s_nsent (ch (sfinal l1))). split; [assumption|]. split; [reflexivity|].
+    unfold ctrace. rewrite Hls. unfold sproj. rewrite sproj_from_app. fold (sfinal l1). simpl. rewrite Em. simpl.
+    unfold trace. rewrite trace_from_app. fold (final (sproj_from sinit l1)). fold (sproj l1). rewrite <- ch_final.
+    simpl. eexists. reflexivity.
+  - left. split; [assumption|]. split; [reflexivity|].
+    rewrite Hls. unfold sproj. rewrite sproj_from_app. fold (sfinal l1). simpl. rewrite Em. reflexivity.
+Qed.
+
+(** (b) full strength at system level: a command sent through the API while the
+    prompt it addresses is not open in the child is never executed (it is dropped
+    by the main process, or it is stale and discarded by the child) *)
+Theorem system_decoys_discarded : forall ls pre c o post,
+  strace ls = pre ++ (SApi c, o) :: post ->
+  forall l1, pre = strace l1 ->
+  open_in (ctrace l1) (c_trace c) <> Some (c_prompt c) ->
+  o = SDropped \/ exists i, o = SForwarded i /\ ~ In i (exec_ids (ctrace ls)).
+Proof.
+  intros ls pre c o post H l1 Hpre Hno.
+  destruct (api_cases _ _ _ _ _ H) as (l1' & l2 & Hls & Hpre' & [(Ho & _)|(i & Ho & Hm & rest & Hct)]); [left; assumption|].
+  right. exists i. split; [assumption|].
+  assert (ctrace l1' = ctrace l1).
+  { (* the child history is determined by the system history *)
+    assert (G : forall a b, strace a = strace b -> a = b).
+    { induction a as [|x a IH] using rev_ind; intros b Hab.
+      - destruct b using rev_ind; [reflexivity|]. rewrite strace_snoc in Hab. destruct (strace b); discriminate.
+      - destruct b as [|y b _] using rev_ind.
+        + rewrite strace_snoc in Hab. destruct (strace a); discriminate.
+        + rewrite !strace_snoc in Hab. apply app_inj_tail in Hab. destruct Hab as [H1 H2]. inversion H2; subst.
+          rewrite (IH _ H1). reflexivity. }
+    rewrite (G l1' l1); [reflexivity|congruence]. }
+  rewrite H0 in Hct.
+  (* forwarded: main saw the prompt open, so the child had issued it; not open in the child: it is closed *)
+  assert (Hiss : In (c_trace c, c_prompt c) (opens (ctrace l1))).
+  { apply (proj1 (view_issued l1)). apply mem_true. rewrite seen_open_final, <- Hpre. assumption. }
+  destruct (opened_closed_or_open (sproj l1) _ _ Hiss) as [Hc|Hc].
+  - eapply (stale_discarded (sproj ls)); [exact Hct|exact Hc].
+  - exfalso. apply Hno. unfold ctrace. rewrite (i_open _ _ (Inv_reach (sproj l1))). exact Hc.
+Qed.
+
+(** every forwarded command was sent while the main process saw the addressed prompt open *)
+Theorem forwarded_seen_open : forall ls pre c i post,
+  strace ls = pre ++ (SApi c, SForwarded i) :: post ->
+  In (c_trace c, c_prompt c) (seen_open pre).
+Proof.
+  intros ls pre c i post H.
+  destruct (api_cases _ _ _ _ _ H) as (l1 & l2 & _ & _ & [(Ho & _)|(j & _ & Hm & _)]); [discriminate|].
+  apply mem_true. assumption.
 Qed.
